@@ -562,7 +562,7 @@ func scriptFamily(fam string, seed int64, n int) []Scenario {
 				"log:upgrading existing transport", "log:got upgrade packet - upgrading", "log:got probe ping packet, sending pong"}
 		case "poll":
 			w, gates = wPoll, []string{"polling.poll.tested", "polling.data.tested", "polling.send.enter", "L.message", "L.flush", "L.close", "rw.write",
-				"log:setting new request for existing client", "log:setting request", "log:aborting ongoing data request"}
+				"log:setting request", "log:aborting ongoing data request"}
 		}
 		if i%3 == 0 {
 			gates = nil // plain runs without any gate
